@@ -236,3 +236,9 @@ package mysql
 //@   props C12
 //@   ensures untouched-relayed-as-received: field.data != nil && !field.changed ==> len(out) == len(field.header) + len(field.data)
 //@ structural mysql-default-value-length-is-lenenc props C12 : nocall ColumnDescription.Dump base.Uint64ToBytes
+
+// Log discipline of the MySQL proxy (C16): the statement text of COM_QUERY / COM_STMT_PREPARE - and the normalized
+// (literal-bearing) form the parser returns - never reach a logger; only the redacted text does.
+//@ structural mysql-proxy-logs-only-redacted props C16 : noflow ProxyClientConnection from ret:Packet.GetData:0,ret:Parser.HandleRawSQLQuery:0 to logrus.* clean Parser.HandleRawSQLQuery,AcraCensorInterface.HandleQuery,QueryObserverManager.OnQuery,OnQueryObject.Query,mysql.NewOnQueryObjectFromQuery
+// (assumed, not checked: the error values of the censor and of the query observers do not embed the statement text;
+// numbers and booleans - the command byte, lengths - are not treated as carrying statement text)
